@@ -436,7 +436,7 @@ func genSpec(t *rapid.T, depth int) ErrSpec {
 	if s.Kind == "rpcerror" && rapid.IntRange(0, 5).Draw(t, "emptydata") == 0 {
 		s.EmptyData = true
 	} else if s.Kind == "rpcerror" && rapid.Bool().Draw(t, "data") {
-		s.Data = json.RawMessage(rapid.SampledFrom([]string{`1`, `"s"`, `[1,2,{"a":null}]`, `{"k":"v"}`, `true`, `1e400`, `"é"`, `[]`}).Draw(t, "datav"))
+		s.Data = json.RawMessage(rapid.SampledFrom([]string{`1`, `"s"`, `[1,2,{"a":null}]`, `{"k":"v"}`, `true`, `1e400`, `"é"`, `[]`, `null`, `false`, `0`, `""`}).Draw(t, "datav"))
 	}
 	switch s.Kind {
 	case "wrap", "wrapcoder":
